@@ -103,6 +103,11 @@ class Explorer:
         w.normalise_time()
         view = take_view(w)
         mon = {"ec": {}, "flt": None}
+        if self.trust_negative:
+            from stabilize.queue.dedup import get_deduplicator
+
+            d = get_deduplicator()
+            mon["flt"] = [sorted(getattr(d, "told", ())), bool(d.authoritative)]
         for m in self.monitors:
             mon[m.name] = m.init(self)
         return State(pack(w.image()), view, mon, dict(self.budget0), ())
@@ -277,7 +282,13 @@ class Explorer:
         return ns, viols
 
     def filter_state(self, st, tr):
-        return None
+        """Contents of the in-memory dedup filter (only tracked when its negatives are trusted)."""
+        if not self.trust_negative:
+            return None
+        from stabilize.queue.dedup import get_deduplicator
+
+        d = get_deduplicator()
+        return [sorted(getattr(d, "told", ())), bool(d.authoritative)]
 
     def key(self, st: State):
         return st.view.key({"m": st.mon, "b": st.budget})
